@@ -270,9 +270,16 @@ def parse_sample(seq):
                r"for\s+row\s+in\s+data\s*\.\s*iter_mut\s*\(\s*\)\s*\{\s*"
                r"for\s*\(\s*x\s*,\s*y\s*\)\s*in\s+row\s*\.\s*iter_mut\s*\(\s*\)\s*\.\s*zip\s*\(\s*\(\s*&\s*mut\s+rng\s*\)\s*\.\s*sample_iter\s*\(\s*&\s*dist\s*\)\s*\)\s*\{\s*"
                r"\*\s*x\s*=\s*symbols\s*\[\s*y\s*\]\s*;\s*\}\s*\}\s*"
+               # the repair of /repo 740d563: the padding cells are overwritten with the wildcard
+               r"let\s+rows\s*=\s*data\s*\.\s*rows\s*\(\s*\)\s*;\s*"
+               r"for\s+i\s+in\s+" + E + r"\.\." + E + r"\s*\{\s*data\s*\[" + E + r"\]\s*\[" + E + r"\]\s*=\s*"
+               r"(?:A\s*::\s*default_symbol\s*\(\s*\)|A\s*::\s*Symbol\s*::\s*default\s*\(\s*\))\s*;\s*\}\s*"
                r"Self\s*::\s*new\s*\(\s*data\s*,\s*" + E + r"\)\s*\.\s*expect\s*\(\s*" + STR + r"\s*\)", b, "StripedSequence::sample")
     base = ("length", "columns", "extra")
-    d = dict(rows=px(m.group(1), base, "sample rows"), newlen=px(m.group(2), base, "sample new length"))
+    fb = base + ("rows",)
+    d = dict(rows=px(m.group(1), base, "sample rows"), newlen=px(m.group(6), base, "sample new length"),
+             f_lo=px(m.group(2), fb, "sample fill range"), f_hi=px(m.group(3), fb, "sample fill range"),
+             f_row=px(m.group(4), fb + ("i",), "sample fill row"), f_col=px(m.group(5), fb + ("i",), "sample fill column"))
     enc = _impl_body(seq, r"impl\s*<\s*A\s*:\s*Alphabet\s*>\s*EncodedSequence\s*<\s*A\s*>\s*\{", "impl EncodedSequence")
     b = _fn_body(enc, "sample", "impl EncodedSequence")
     m = _match(DIST + r"rng\s*\.\s*sample_iter\s*\(\s*&\s*dist\s*\)\s*\.\s*take\s*\(" + E + r"\)\s*\.\s*map\s*\(\s*\|\s*i\s*\|\s*symbols\s*\[\s*i\s*\]\s*\)\s*\.\s*collect\s*\(\s*\)",
@@ -336,11 +343,17 @@ def render(st, si, facts, sm):
     A("")
     A("(* seq.rs StripedSequence::sample: let mut data = unsafe { DenseMatrix::uninitialized(<rows>) };")
     A("   for row in data.iter_mut() { for (x, y) in row.iter_mut().zip((&mut rng).sample_iter(&dist)) { *x = symbols[y]; } }")
-    A("   Self::new(data, <newlen>).expect(..)      -- every row, left to right, takes the next C draws")
+    A("   let rows = data.rows(); for i in <f_lo>..<f_hi> { data[<f_row>][<f_col>] = A::default_symbol(); }")
+    A("   Self::new(data, <newlen>).expect(..)      -- every row, left to right, takes the next C draws; then the")
+    A("   cells past the end of the sequence are overwritten with the wildcard (repair of /repo 740d563)")
     A("   seq.rs EncodedSequence::sample: rng.sample_iter(&dist).take(<take>).map(|i| symbols[i]).collect() *)")
     emit("sm", "rows", b0, sm["rows"])
     emit("sm", "newlen", b0, sm["newlen"])
     emit("sm", "take", b0, sm["take"])
+    emit("sm", "f_lo", b1, sm["f_lo"])
+    emit("sm", "f_hi", b1, sm["f_hi"])
+    emit("sm", "f_row", "(length columns extra rows i : nat)", sm["f_row"])
+    emit("sm", "f_col", "(length columns extra rows i : nat)", sm["f_col"])
     A("")
     return "\n".join(L)
 
